@@ -1,6 +1,10 @@
+(* roots: C04 C02 *)
 (* Shared helpers of the model-checking properties C04, C02, C03 (file name sorts before c02.ml). *)
 open Model
 open Conv
+
+(* which variant of the encoding model mirrors the code in /repo: Fixed since the fix: commit bb18215 (D1+D4 repaired) *)
+let code_variant = Fixed
 
 let ty_of_sexp = function
   | Sexp.List [Sexp.Atom "bv"; w] -> TBV (num w)
@@ -131,7 +135,7 @@ let names_with_fallback fs : expr -> char list =
 (* the class of the C04 defect that makes a conforming solver reject the script of [init_at 0; unroll^n], if any *)
 let script_defect (sy : sys) (nm : expr -> char list) (n : int) : string option =
   let en = enc_new sy nm in
-  let sc = script Current en N0 (N.to_nat (n_of_int n)) in
+  let sc = script code_variant en N0 (N.to_nat (n_of_int n)) in
   match first_bad [] sc with
   | Some (d, c) -> Some (classify sy en 0 sc d c)
   | None -> None
